@@ -169,4 +169,87 @@ theorem run_walk {cap0 : Nat} (sched : List (Nat × Bool)) {s : AS} (h : AInv ca
       rw [ih (step_inv h hs) hc', step_walk h hs c hc]
     · exact ih h hc
 
+/-! ### The limit and its ghost maximum -/
+
+/-- A thread step changes neither the limit nor the highest limit ever in force. -/
+theorem step_limits {s s' : AS} {t : Nat} {sp : Bool} (hs : step s t sp = some s') : s'.max = s.max ∧ s'.hi = s.hi := by
+  unfold step at hs
+  split at hs
+  · simp at hs
+  · split at hs <;> (try dsimp only at hs) <;> (repeat' (split at hs)) <;> (try (simp at hs; done)) <;>
+      (injection hs with hs; subst hs; exact ⟨rfl, rfl⟩)
+
+theorem run_limits (sched : List (Nat × Bool)) (s : AS) : (run s sched).max = s.max ∧ (run s sched).hi = s.hi := by
+  induction sched generalizing s with
+  | nil => exact ⟨rfl, rfl⟩
+  | cons e rest ih =>
+    obtain ⟨t, sp⟩ := e
+    unfold run
+    split
+    next s' hs =>
+      have h1 := step_limits hs
+      have h2 := ih s'
+      exact ⟨h2.1.trans h1.1, h2.2.trans h1.2⟩
+    · exact ih s
+
+/-- Changing the limit (from outside the interning paths) preserves the invariant. -/
+theorem inv_setMax {cap0 : Nat} {s : AS} (h : AInv cap0 s) (m : Nat) : AInv cap0 (setMax s m) := by
+  obtain ⟨h1, h2, h3, h4, h5, h6, h7, h9, h11, h11b, h12⟩ := h
+  have hle : s.hi ≤ Nat.max s.hi m := Nat.le_max_left _ _
+  constructor
+  · exact h1
+  · exact h2
+  · exact h3
+  · exact h4
+  · intro t th ht
+    obtain ⟨a, b, c, d, d', e, f⟩ := h5 t th ht
+    exact ⟨a, b, fun mx hm => Nat.le_trans (c mx hm) hle, d, d', e, f⟩
+  · exact h6
+  · exact h7
+  · exact h9
+  · exact Nat.le_trans h11 (by simp only [setMax]; exact Nat.max_le.mpr ⟨Nat.le_max_left _ _, Nat.le_trans hle (Nat.le_max_right _ _)⟩)
+  · exact Nat.le_max_right _ _
+  · exact h12
+
+theorem runE_inv {cap0 : Nat} (evs : List Ev) {s : AS} (h : AInv cap0 s) : AInv cap0 (runE s evs) := by
+  induction evs generalizing s with
+  | nil => exact h
+  | cons e rest ih =>
+    cases e with
+    | th t sp =>
+      simp only [runE]
+      split
+      next s' hs => exact ih (step_inv h hs)
+      · exact ih h
+    | setMax m => exact ih (inv_setMax h m)
+
+theorem runE_acct {cap0 : Nat} (evs : List Ev) {s : AS} (h : AInv cap0 s) (hA : Acct s) : Acct (runE s evs) := by
+  induction evs generalizing s with
+  | nil => exact hA
+  | cons e rest ih =>
+    cases e with
+    | th t sp =>
+      simp only [runE]
+      split
+      next s' hs => exact ih (step_inv h hs) (step_acct h hA hs)
+      · exact ih h hA
+    | setMax m => exact ih (inv_setMax h m) hA
+
+/-- The ghost maximum is what it says: never below a limit that was in force. -/
+theorem runE_hi_le (evs : List Ev) (s : AS) (B : Nat) (h0 : s.hi ≤ B) (hall : ∀ m, Ev.setMax m ∈ evs → m ≤ B) :
+    (runE s evs).hi ≤ B := by
+  induction evs generalizing s with
+  | nil => exact h0
+  | cons e rest ih =>
+    cases e with
+    | th t sp =>
+      simp only [runE]
+      split
+      next s' hs =>
+        exact ih s' (by rw [(step_limits hs).2]; exact h0) (fun m hm => hall m (List.mem_cons_of_mem _ hm))
+      · exact ih s h0 (fun m hm => hall m (List.mem_cons_of_mem _ hm))
+    | setMax m =>
+      exact ih (setMax s m) (by simp only [setMax]; exact Nat.max_le.mpr ⟨h0, hall m (List.mem_cons_self ..)⟩)
+        (fun m' hm => hall m' (List.mem_cons_of_mem _ hm))
+
 end Lasso.CA
